@@ -53,6 +53,9 @@ def build(reg):
             if x.t == CBN: return Val(CBN, CBN.mk(z3.BoolVal(False), CBN.getf(x.z, "name"), LName.make(z3.IntVal(1), z3.K(z3.IntSort(), CBN.getf(x.z, "name")))))
         if not isinstance(n, ast.Call): return None
         src = ast.unparse(n).replace(" ", "")
+        if src == "list(chain.from_iterable(vertices))":       # the same concatenation, spelled with itertools
+            v = ex.expr(ast.Name(id="vertices", ctx=ast.Load()), st, pc)
+            if v.t == LL: ex.assumptions.add("list(chain.from_iterable(xs)) is the concatenation of the sublists"); return Val(LInt, FLAT(v.z))
         if src == "self.infinite_sequence()": return Val(INT, z3.IntVal(0))
         if src == "next(gen)":
             cur = st.env["gen"]; st.env["gen"] = Val(INT, cur.z + 1); return cur
